@@ -27,6 +27,8 @@ pub struct Recorder {
     // harness-side knowledge about the history of this run
     max: usize,
     resized: bool,
+    abandoned: bool,
+    usedrt: bool,
     close_ret: bool,
     /// per task: the operation in progress
     op: Vec<&'static str>,
@@ -56,6 +58,8 @@ impl Recorder {
             i: 0,
             max: 0,
             resized: false,
+            abandoned: false,
+            usedrt: false,
             close_ret: false,
             op: vec![],
             arg: vec![],
@@ -78,6 +82,8 @@ impl Recorder {
         self.i = 0;
         self.max = w.cfg.init_max;
         self.resized = false;
+        self.abandoned = false;
+        self.usedrt = false;
         self.close_ret = false;
         self.op = vec!["none"; n];
         self.arg = vec![0; n];
@@ -91,8 +97,10 @@ impl Recorder {
         self.idle_before_walk = vec![vec![]; n];
         self.keep = vec![vec![]; n];
         self.solo = vec![None; n];
+        std::thread::sleep(std::time::Duration::from_micros(200));
         let mut e = self.base(w, "begin", None);
         e["act"] = json!("Build");
+        e["bgcalls"] = json!(w.truth().calls.len());
         self.push(e);
     }
 
@@ -136,7 +144,7 @@ impl Recorder {
             "run": self.run, "i": self.i, "k": kind,
             "task": t.map(|t| w.cfg.tasks[t].clone()).unwrap_or_else(|| "-".into()),
             "act": "-", "done": false, "op": "none", "result": "-", "robj": 0, "arg": 0,
-            "max": self.max, "resized": self.resized,
+            "max": self.max, "resized": self.resized, "abandoned": self.abandoned, "usedrt": self.usedrt,
             "live": alive.len(), "exist": exist, "creating": truth.creating, "out": out,
             "idle": idle, "idleids": idleids,
             "ingets": ingets, "blocked": blocked,
@@ -144,7 +152,7 @@ impl Recorder {
             "stknown": s.status.is_some(), "st_max": st.0, "st_size": st.1, "st_avail": st.2, "st_wait": st.3,
             "closed": s.closed, "closeret": self.close_ret, "poolgone": s.pool_gone,
             "upanics": truth.unexpected.len(), "mfaults": truth.metric_faults.len(),
-            "newcalls": newcalls, "orphancalls": orphan_calls,
+            "newcalls": newcalls, "orphancalls": orphan_calls, "bgcalls": 0,
             // event-specific facts (neutral defaults)
             "chain": [], "late": false, "cause": "none", "mode": "-",
             "rrc": 0, "rho": 0, "rrec": false, "rrejected": false,
@@ -186,6 +194,7 @@ impl Recorder {
             }
             "StartTake" => {
                 self.op[t] = "take";
+                self.usedrt = true;
                 self.arg[t] = st.x.first().and_then(|v| v.as_u64()).unwrap_or(0) as usize;
                 let id = self.arg[t] as u32;
                 self.refq.retain(|x| *x != id);
@@ -195,7 +204,11 @@ impl Recorder {
                 self.arg[t] = st.x.first().and_then(|v| v.as_u64()).unwrap_or(0) as usize;
             }
             "StartClose" => self.op[t] = "close",
-            "StartRetain" => self.op[t] = "retain",
+            "StartRetain" => {
+                self.op[t] = "retain";
+                self.usedrt = true;
+            }
+            "Cancel" | "GWaitCancel" => self.abandoned = true,
             _ => {}
         }
         if let Some(TState::AtPoint(site)) = before {
@@ -257,6 +270,9 @@ impl Recorder {
         match st.a.as_str() {
             "Call" | "Resume" => {
                 let out = st.x.first().and_then(|v| v.as_str()).unwrap_or("ok");
+                if out == "panic" {
+                    self.abandoned = true;
+                }
                 let at = match before {
                     Some(TState::AtCall { kind, idx, obj, .. }) => Some((*kind, *idx, *obj)),
                     Some(TState::Pending { gate: Some((k, i)) }) => Some((*k, *i, 0)),
@@ -284,7 +300,13 @@ impl Recorder {
                 let _ = failed_call;
             }
             "Cancel" | "GWaitCancel" => self.cause[t] = "cancel",
-            "GWaitExpire" => self.cause[t] = "wait_expired",
+            "GWaitExpire" => {
+                // tokio's timeout polls the acquire first: a permit (or close) that arrived
+                // before this poll wins over the deadline
+                if !w.pre_woken && !w.pre_closed {
+                    self.cause[t] = "wait_expired"
+                }
+            }
             "Expire" => {
                 if let Some(TState::Pending { gate: Some((CallKind::Create, _)) }) = before {
                     self.cause[t] = "create_timeout";
@@ -324,11 +346,9 @@ impl Recorder {
                 }
             }
         }
-        if st.a == "StartRetain" || st.a == "RtStatus" {
+        if let Some(TState::AtPoint("m.retain.lock")) = before {
             // idle list right before the walk
-            if let Some((_, _, _, ids)) = &w.snapshot().slots {
-                self.idle_before_walk[t] = ids.clone();
-            }
+            self.idle_before_walk[t] = w.pre_idle.clone();
         }
         if st.a == "RtWalk" {
             self.keep[t] = st
@@ -349,6 +369,7 @@ impl Recorder {
         // completion of an operation
         if w.ts[t] == TState::Idle && self.op[t] != "none" {
             e["done"] = json!(true);
+            e["resizing"] = json!((0..w.ts.len()).any(|u| u != t && matches!(self.op[u], "resize" | "close")));
             let r = w.last[t].clone().unwrap_or(OpResult::Unit);
             e["result"] = json!(r.spec_name());
             e["late"] = json!(self.late[t]);
@@ -410,14 +431,20 @@ impl Recorder {
         let mut e = self.base(w, "probe", None);
         e["act"] = json!("Probe");
         e["probe_got"] = json!(got);
+        // the probe's objects are checked out too (held by the controller)
+        let out = e["out"].as_i64().unwrap_or(0) + got.max(0);
+        e["out"] = json!(out);
         e["probe_extra"] = json!(extra);
         e["stranded"] = json!(stranded);
         self.push(e);
     }
 
     pub fn end(&mut self, w: &World, res: &PathResult) {
+        let before = w.truth().calls.len();
+        std::thread::sleep(std::time::Duration::from_micros(200));
         let mut e = self.base(w, "end", None);
         e["act"] = json!("End");
+        e["bgcalls"] = json!(w.truth().calls.len() - before);
         let truth = w.truth();
         let idle: BTreeSet<u32> = w.snapshot().slots.map(|s| s.3.into_iter().collect()).unwrap_or_default();
         let mut held: BTreeMap<u32, bool> = BTreeMap::new();
@@ -441,6 +468,18 @@ impl Recorder {
         e["conform"] = json!(res.conform);
         drop(truth);
         self.push(e);
+    }
+}
+
+fn cancel_waiter(w: &mut World, rec: &mut Recorder, t: usize) {
+    let before = w.ts[t].clone();
+    w.send(t, Cmd::Cancel);
+    rec.drain_step(w, t, "GWaitCancel", &before, 0);
+    // the drop sequence of the abandoned future
+    while let TState::AtPoint(_) = w.ts[t] {
+        let b = w.ts[t].clone();
+        w.send(t, Cmd::Go(None));
+        rec.drain_step(w, t, "Go", &b, 0);
     }
 }
 
@@ -486,7 +525,14 @@ pub fn drain_and_probe(w: &mut World, rec: &mut Recorder) {
             break;
         }
         if !progressed {
-            break;
+            // a task may be waiting for a slot while itself holding objects: give up that
+            // wait (a legitimate cancellation) so that its objects can be returned
+            let total_held: usize = (0..n).map(|t| w.held(t).len()).sum();
+            let blocked_holder = (0..n).find(|t| matches!(w.ts[*t], TState::Pending { gate: None }) && total_held > 0);
+            match blocked_holder {
+                Some(t) => cancel_waiter(w, rec, t),
+                None => break,
+            }
         }
     }
     if w.hung {
@@ -497,13 +543,7 @@ pub fn drain_and_probe(w: &mut World, rec: &mut Recorder) {
     for t in 0..n {
         if matches!(w.ts[t], TState::Pending { gate: None }) {
             stranded += 1;
-            let before = w.ts[t].clone();
-            w.send(t, Cmd::Cancel);
-            // the drop sequence
-            while let TState::AtPoint(_) = w.ts[t] {
-                w.send(t, Cmd::Go(None));
-            }
-            rec.drain_step(w, t, "GWaitCancel", &before, 0);
+            cancel_waiter(w, rec, t);
         }
     }
     // probe through the public API on this thread (no schedule hook installed here)
